@@ -394,6 +394,8 @@ def build_tables(case, out):
                     if i == j:
                         continue
                     a, _ = filter_exact(k, cols[f], cols[g])
+                    if a != tk and tk >= 0 and abs(float(a) ** (1 / p) - float(tcorr)) <= TOL:
+                        a = tk  # equal to thresh_corr up to the rounding of the user's float: boundary
                     mat[(f, g)] = a
                     iv = ((ipair.get(k) or {}).get(f) or {}).get(g)
                     if a == tk:
@@ -883,7 +885,9 @@ def gen_quali(rng, n, y, k, allow_nan):
 
 def gen_case(rng, kind=None):
     task = rng.choice(["classification", "classification", "regression"])
-    n = rng.choice([8, 12, 20, 30, 45, 60])
+    # (never fewer rows than columns of the association table: with as many rows as measure keys
+    #  pandas' DataFrame.apply relabels the keys with the row labels and nothing is selected)
+    n = rng.choice([12, 16, 20, 30, 45, 60])
     y = gen_y(rng, n, task)
     nq, nl = rng.choice([(0, 3), (3, 0), (4, 2), (5, 3), (6, 0), (2, 4), (7, 2)])
     quanti = gen_quanti(rng, n, y, nq)
@@ -980,7 +984,7 @@ def gen_two_measure_case(rng):
     case = None
     for _ in range(80):
         n = rng.choice([20, 30, 45, 60])
-        y = [0, 1] * (n // 2)
+        y = [i % 2 for i in range(n)]
         rng.shuffle(y)
         n_best = rng.choice([1, 1, 2])
         if rng.random() < 0.6:
@@ -1283,9 +1287,10 @@ class C14(Prop):
                     sig = "second_chi2_based_measure_unboundlocal"
                 elif any(len(t["filters"]) >= 2 for t in tabs.values()):
                     sig = "second_filter_on_empty_ranking_crashes"
-            elif tag == "sorted" and d in tabs and any(
-                    abs(r["raw"][-1]["key"]) == BIG for r in tabs[d]["rows"]
+            elif tag in ("sorted", "maximal", "count") and d in tabs and any(
+                    abs(r["raw"][-1]["key"]) == BIG and r["name"] in (out["sel"] or []) for r in tabs[d]["rows"]
                     if r["raw"] and r["raw"][-1]["key"] not in (None, "err")):
+                # the +-inf feature is returned (first): sortedness fails and it takes an n_best slot
                 sig = "degenerate_kruskal_inf_is_ranked"
             elif tag in ("sorted", "maximal", "count"):
                 if case["task"] == "regression" and d == "float" and ms == ["distance"]:
@@ -1294,7 +1299,7 @@ class C14(Prop):
                     sig = "second_measure_never_computed"
                 elif ms == ["rkruskal"] and any(isnan(v) for _, c in case["quali"] for v in decs(c)):
                     sig = "regression_qualitative_nan_group"
-                elif (d == "str" and tag == "sorted" and ms[-1] in ("cramerv", "tschuprowt")
+                elif (d == "str" and tag in ("sorted", "maximal") and ms[-1] in ("cramerv", "tschuprowt")
                       and any(r["raw"][-1]["key"] != r["spec"][-1] for r in tabs[d]["rows"])):
                     sig = "chi2_modalities_counted_on_incomplete_rows"
             if sig is None and tag == "maximal" and d in tabs and len(tabs[d]["filters"]) >= 2:
@@ -1390,7 +1395,7 @@ class C14(Prop):
                 continue
             n = c["n"]
             for size in (n // 2, n // 4, 2, 1):
-                if size < 1 or n - size < 6:
+                if size < 1 or n - size < 12:
                     continue
                 for start in range(0, n, size):
                     keep = [i for i in range(n) if not start <= i < start + size]
